@@ -10,7 +10,7 @@ import (
 	"github.com/bool64/cache"
 )
 
-const c05aRule = "bursts: SyncRead forced on, one key initially absent / stale-recent / stale-old, 2-8 Gets with the same builder outcome arriving at generated points of a generated schedule (call-out granularity), result TTL 1h, clock jumps <= 1s only, no external ops, no SkipRead, no negative TTL (excluded by construction so the result stays fresh); " +
+const c05aRule = "bursts: SyncRead forced on, one key initially absent / stale-recent / stale-old, 2-8 Gets with the same builder outcome arriving at generated points of a generated schedule (call-out granularity), result TTL 1h, clock jumps <= 1s (failing bursts) or up to UpdateTTL+1ns (succeeding bursts), no external ops, no SkipRead, no negative TTL (excluded by construction so the result stays fresh); " +
 	"oracle: builder ok => exactly one builder invocation in the whole case; builder error with failures cached => exactly one invocation, and every Get started after it returns the cached error or the stale value; " +
 	"non-trivial = a waiter was seen or a Get started after the build had finished"
 
@@ -32,7 +32,7 @@ func TestC05Burst(t *testing.T) {
 					cfg.failedUpdateTTL = 0
 				}
 
-				if cfg.updateTTL == time.Second {
+				if cfg.updateTTL == time.Second && fails {
 					cfg.updateTTL = 0
 				}
 			},
@@ -49,7 +49,13 @@ func TestC05Burst(t *testing.T) {
 			w := newWorld(c, sc.cfg)
 			w.prepare(sc)
 
-			complete := w.runSchedule(sc.gets, ctlOpts{clockSteps: 2, clockMenu: []time.Duration{time.Nanosecond, time.Second}})
+			// the result (TTL 1h) stays fresh across a jump past UpdateTTL; a cached failure (20s+) does not
+			menu := []time.Duration{time.Nanosecond, time.Second}
+			if !fails && sc.cfg.effUpdateTTL() < 30*time.Minute {
+				menu = append(menu, sc.cfg.effUpdateTTL()+1)
+			}
+
+			complete := w.runSchedule(sc.gets, ctlOpts{clockSteps: 2, clockMenu: menu})
 			w.reportProblems()
 			w.classify(sc)
 
